@@ -17,13 +17,32 @@ type batch struct {
 	// behaviour of the real key-value store. Hence, we store them and then flush them afterwards.
 	writes   []keyValue
 	writeMap map[string]keyValue
-	size     int
+	// Range tombstones recorded by DeleteRange, in log order (they are also part of writes).
+	ranges []keyValue
+	size   int
 }
 
 type keyValue struct {
 	key    string
 	value  []byte
 	delete bool
+	// isRange marks a range tombstone over [key, rangeEnd). Like in pebble it applies to
+	// whatever the database holds when the batch is written (and to reads through the batch),
+	// not only to the keys that existed when DeleteRange was called.
+	isRange  bool
+	rangeEnd string
+}
+
+// inDeletedRange reports whether key is covered by a range tombstone of this batch.
+// Only meaningful for keys without a point operation in the batch: DeleteRange records
+// point deletes for everything visible at that time and later puts come after it.
+func (b *batch) inDeletedRange(key string) bool {
+	for i := range b.ranges {
+		if key >= b.ranges[i].key && key < b.ranges[i].rangeEnd {
+			return true
+		}
+	}
+	return false
 }
 
 func newBatch(db *Database) *batch {
@@ -46,6 +65,10 @@ func (b *batch) Get(key []byte, cb func(value []byte) error) error {
 			return db.ErrKeyNotFound
 		}
 		return cb(val.value)
+	}
+
+	if b.inDeletedRange(string(key)) {
+		return db.ErrKeyNotFound
 	}
 
 	val, ok := b.db.db[string(key)]
@@ -71,6 +94,10 @@ func (b *batch) Has(key []byte) (bool, error) {
 		return true, nil
 	}
 
+	if b.inDeletedRange(string(key)) {
+		return false, nil
+	}
+
 	_, ok := b.db.db[string(key)]
 	if ok {
 		return true, nil
@@ -92,6 +119,7 @@ func (b *batch) NewIterator(prefix []byte, withUpperBound bool) (db.Iterator, er
 		db:       tempDB,
 		writes:   slices.Clone(b.writes),
 		writeMap: maps.Clone(b.writeMap),
+		ranges:   slices.Clone(b.ranges),
 	}
 
 	// write the changes to the temporary db
@@ -153,6 +181,14 @@ func (b *batch) DeleteRange(start, end []byte) error {
 		}
 	}
 
+	// The tombstone itself stays in the log: a key that another writer stores in the
+	// range before this batch is written is deleted as well, as pebble does.
+	if bytes.Compare(start, end) < 0 {
+		tombstone := keyValue{key: string(start), isRange: true, rangeEnd: string(end)}
+		b.writes = append(b.writes, tombstone)
+		b.ranges = append(b.ranges, tombstone)
+	}
+
 	return nil
 }
 
@@ -173,7 +209,13 @@ func (b *batch) Write() error {
 	}
 
 	for _, write := range b.writes {
-		if write.delete {
+		if write.isRange {
+			for key := range b.db.db {
+				if key >= write.key && key < write.rangeEnd {
+					delete(b.db.db, key)
+				}
+			}
+		} else if write.delete {
 			delete(b.db.db, write.key)
 		} else {
 			b.db.db[write.key] = write.value
